@@ -243,10 +243,38 @@ PROPS['C14'] = {
                    'python-axolotl), level_prekeys generation loop, connection loss at thread level: level other.',
     'native_checks': [{'name': 'c14_prekeys', 'role': 'stand-in', 'cmd': ['bounded/prekeys_check.py'],
                        'bound': 'frame scan (complete over the repository); adjustId: quick 3014 ids incl. boundaries, thorough all 2^24; '
-                                '5/40 uploads with real keys; 3/30 histories of 3-7 restarts with batch size 6'}],
+                                '5/40 uploads with real keys; 3/30 manager-level histories of 3-7 restarts with batch size 6; 25/300 histories '
+                                'through the real control-layer handlers with overlapping uploads, lost confirmations and restarts'}],
     'assumptions': ['sqlite3 transactional model (C13)', 'adjustId / adjustArray are assumed pure in the contract of flush_keys and validated natively',
                     'KeyHelper.generatePreKeys / generateSignedPreKey (python-axolotl) are outside the proofs',
                     'SetKeysIqProtocolEntity construction is an opaque event in flush_keys; its content is checked natively'],
+}
+
+PROPS['C19'] = {
+    'sidecars': ['contracts/C19_config.py'],
+    'level': 'other',
+    'explanation': 'Discharged for all inputs, every file-system call being an event: StorageTools.writeProfileData follows the protocol '
+                   '[isdir, makedirs if missing] open(sibling .tmp, text) - write(whole text) - flush - fileno - fsync - close - '
+                   'replace(sibling, target) in exactly this order, the target is touched by nothing but that one rename, and on every '
+                   'exceptional exit nothing was renamed or removed unless the sibling was complete (=> every crash point leaves the old or the '
+                   'new file, given atomic rename); ConfigManager.save writes config.<ext of the format> through that function, removes a '
+                   'left-over config in the other format only AFTER the new one is in place, writes dest= in text mode; '
+                   'ConfigManager.load tries the path, then the first existing of config.yo / config.json in the profile directory (either '
+                   'probing order), reads only; _load_path detects the format, reads once, uses the parser of the detected format; guess_type '
+                   'decides by the lower-cased extension without reading, else reads once and tries key=value then JSON.  Bounded (labelled '
+                   'bounded): the text formats and the config<->dict pipeline (all field subsets x generated values x both formats x three load '
+                   'paths x never-used profile) and crash injection at every real file-system operation of a save.',
+    'native_checks': [{'name': 'c19_config', 'role': 'stand-in', 'cmd': ['bounded/config_check.py'],
+                       'bound': 'round trip: quick 393 field subsets (empty, full, singletons, pairs with a binary field, 300 random), thorough '
+                                'all 65536 subsets; one value draw each, both formats, 3 load paths (quick) / profile path + every 8th all paths '
+                                '(thorough); crash injection: every file-system operation (each write cut in half) x previous config none/json/'
+                                'keyval x new json/keyval, 1/6 repetitions; real ConfigManager, real files in a private XDG_CONFIG_HOME'}],
+    'assumptions': ['os.replace / os.rename is atomic and open/write/flush/fsync/close behave as POSIX says; directory entries are durable '
+                    'after the rename (no fsync of the directory is done by the code, none is demanded by the contract)',
+                    'StorageTools.getStorageForProfile is an assumed pure function of the name (validated natively); os.path.join / splitext '
+                    'uninterpreted pure functions',
+                    'ConfigManager.config_to_str / load_data and the transform classes are opaque events in the contracts: their round trip is '
+                    'decided only by the bounded stand-in'],
 }
 
 NOT_APPLICABLE = {
